@@ -34,11 +34,15 @@ Db0 == << [key |-> <<"g", 1>>, dyn |-> FALSE, cls |-> << [id |-> 1, head |-> G(A
           [key |-> <<"w", 1>>, dyn |-> FALSE, cls |-> << [id |-> 3, head |-> W(V(1)), body |-> TrueA, nv |-> 1] >>] >>
 
 CONSTANTS N,        \* maximal length of the inner goal
-          OUTER     \* TRUE: also run every skeleton behind an older choice point g(A)
+          OUTER,    \* TRUE: also run every skeleton behind an older choice point g(A)
+          AFTER     \* TRUE: also continue after the OUTER catch/3 has exited (both catches exited) with a throw
 
 Inner(g1, c1, r1, k, c2) == C("catch", << Conj2(C("catch", <<Conj(g1), c1, r1>>), k), c2, W(C("r2", <<Y, Z>>)) >>)
 Queries == { Inner(g1, c1, r1, k, c2) : g1 \in Seqs(N), c1 \in Catchers1, r1 \in Recov1, k \in Conts, c2 \in Catchers2 }
-AllQueries == Queries \cup (IF OUTER THEN { Conj2(G(V(8)), q) : q \in Queries } ELSE {})
+\* continuations that run after the outer catch/3 has exited, too: nothing may intercept their balls
+Conts2 == { Thr(B1), Thr(B(X)), Conj2(A("fail"), A("true")) }
+Queries2 == Queries \cup (IF AFTER THEN { Conj2(q, k2) : q \in Queries, k2 \in Conts2 } ELSE {})
+AllQueries == Queries2 \cup (IF OUTER THEN { Conj2(G(V(8)), q) : q \in Queries2 } ELSE {})
 
 VARIABLES st, hist, q
 gvars == <<st, hist, q>>
